@@ -235,6 +235,9 @@ struct Inner {
     cur_op: usize,
     rng: Rng,
     per_op_calls: [u32; 10],
+    /// short / interrupted completions so far in this operation; beyond a cap the device
+    /// "catches up" and completes fully, so that huge legitimate transfers stay affordable
+    op_nonfull: u32,
     op_steps: u64,
     step_budget: u64,
     pub stats: Stats,
@@ -254,6 +257,7 @@ pub struct SimFs {
 }
 
 pub const MAX_FILE: u64 = 96 << 20;
+pub const NONFULL_CAP: u32 = 200_000;
 
 fn enoent() -> io::Error {
     io::Error::from_raw_os_error(libc::ENOENT)
@@ -407,6 +411,9 @@ impl Inner {
     }
 
     fn done(&mut self, call: Call, d: Done, what: impl FnOnce() -> String) {
+        if matches!(d, Done::Short | Done::Eintr) {
+            self.op_nonfull += 1;
+        }
         self.stats.fired[call.idx()][d as usize] += 1;
         self.stats.sched_hash = fnv1a(self.stats.sched_hash, &[call as u8, d as u8]);
         if let Some(t) = self.trace.as_mut() {
@@ -464,6 +471,7 @@ impl SimFs {
                 cur_op: 0,
                 rng: Rng::new(0),
                 per_op_calls: [0; 10],
+                op_nonfull: 0,
                 op_steps: 0,
                 step_budget: u64::MAX,
                 stats: Stats::default(),
@@ -502,6 +510,7 @@ impl SimFs {
         i.cur_op = op;
         i.rng = Rng::new(sub_seed);
         i.per_op_calls = [0; 10];
+        i.op_nonfull = 0;
         i.op_steps = 0;
         i.step_budget = step_budget;
         i.sticky.clear();
@@ -865,7 +874,7 @@ impl Backend for SimFs {
             i.done(Call::Read, Done::Eof, what);
             return Ok(0);
         }
-        let b = i.benign.clone();
+        let b = if i.op_nonfull > NONFULL_CAP { Benign::quiet() } else { i.benign.clone() };
         if !last_eintr && b.eintr_read > 0 && i.rng.below(256) < b.eintr_read as u64 {
             i.fds.get_mut(&fd).unwrap().last_eintr = true;
             if blen <= 16 {
@@ -944,7 +953,7 @@ impl Backend for SimFs {
             i.done(Call::Write, Done::NaturalErr, what);
             return Err(io::Error::from_raw_os_error(libc::ENOSPC));
         }
-        let b = i.benign.clone();
+        let b = if i.op_nonfull > NONFULL_CAP { Benign::quiet() } else { i.benign.clone() };
         if !last_eintr && b.eintr_write > 0 && i.rng.below(256) < b.eintr_write as u64 {
             i.fds.get_mut(&fd).unwrap().last_eintr = true;
             i.done(Call::Write, Done::Eintr, what);
